@@ -288,7 +288,7 @@ impl Sched {
         if self.record_ops {
             let n = g.addr_ids.len();
             let obj = if op.addr == 0 { 0 } else { *g.addr_ids.entry(op.addr).or_insert(n + 1) };
-            let (func, field) = srcmap::lookup(op.caller.file(), op.caller.line());
+            let (func, field) = srcmap::lookup(op.caller.file(), op.caller.line(), op.caller.column());
             let fld = if op.kind == OpKind::Yield { op.tag.to_string() } else { field };
             let ev = json!({
                 "k": "op", "t": t, "fn": func, "fld": fld, "o": kind_name(op.kind),
